@@ -24,8 +24,16 @@ def gen(rng, k, dll=None, big=False):
             size = 60 * rng.randint(1, 4) + FD_LAST[(k // 4) % len(FD_LAST)]
     else:
         size = rng.choice([9, 13, 14, 15, 21, 22, rng.randint(9, 250)]) if not big else rng.choice([1784, 1785, rng.randint(250, 1785)])
+    directed_grant = (not fd) and (not big) and k % 4 == 1
+    if directed_grant:
+        # the stack as responder of a message whose size is a multiple of 7 (and of one that is not), with a window that
+        # leaves a partial last window: the follow-up CTS must grant exactly what remains
+        size = 7 * rng.randint(2, 12) - rng.choice([0, 0, 0, 1, 6])
+        role, bam = 'stack-responder', False
     n = (size + unit - 1) // unit
     max_cmdt = rng.choice([1, 2, 3, 7, 8, 127, 254, 255, rng.randint(1, 255)])
+    if directed_grant:
+        max_cmdt = rng.choice([2, 3, 4, 5])
     cmdt_iv = rng.choice([None, None, None, 0.001, 0.005, 0.02, 0.05])
     bam_iv = rng.choice([None, None, 0.01, 0.05, 0.1, 0.19])
     pf = rng.choice([x for x in range(0, 240) if x not in (0xEA, 0xEB, 0xEC, 0xEE, 0x4D, 0x4E, 0x25)])
@@ -38,6 +46,8 @@ def gen(rng, k, dll=None, big=False):
     plan = dict(fd=fd, windows=windows, holds=holds if not fd else [0], hold_gap=rng.choice([1000, 100000, 400000]),
                 reply_delay=rng.choice([0, 1000, 50000, 150000]), dt_gap=rng.choice([500, 1000, 20000, 150000]),
                 limit=rng.choice([1, 2, 3, 8, 255, rng.randint(1, 255)]), session=rng.randint(0, 7 if not bam else 3), prio=rng.randint(0, 7))
+    if directed_grant:
+        plan['limit'] = 255
     if bam and role == 'stack-responder':
         plan['dt_gap'] = rng.choice([50000, 100000, 190000]) if not fd else rng.choice([10000, 50000, 190000])
     sc = dict(kind='tpconf', dll=dll, role=role, bam=bam, size=size, seed=rng.getrandbits(30), max_cmdt=max_cmdt, cmdt_iv=cmdt_iv, bam_iv=bam_iv,
